@@ -536,7 +536,16 @@ func firstOr(a []string, d string) string {
 }
 
 func propertyAssumptions(p string) []string {
-	return nil
+	common := map[string][]string{
+		"C01": {"isEv / ret_f are the graphs of the real functions (assumed for the actual arguments and results of each call only)", "known findings: binding powers of projection right-hand sides (see known_findings.json)"},
+		"C04": {"the ghost token stream is what the lexer yields (defines clauses of advance/advance2/setCurrent)"},
+		"C07": {"reduction lemma A1 (DESIGN.md): an activation that writes only memory it allocated itself cannot race"},
+		"C11": {"the expression text handed to Search/Compile/MustCompile is a whole string (requires clause of the API functions: an assumption, they have no caller in the repository)", "facts about Go's UTF-8 segmentation in prelude.smt2 (an ASCII byte is never inside a longer unit; decode/rune-table axioms)", "keys read back from a map[string]T are aligned because keys are checked where they are inserted"},
+		"C13": {"slices.SortFunc calls its comparator with two elements of the slice, and with every element at least once when there are two or more (callback clause, trusted)", "sort.Stable is stable"},
+		"C15": {"which invariant makes a loop over a map order-insensitive is a reviewed choice; external functions with contracts are functions of their arguments"},
+		"C18": {"c18.ih (every value received as parameter, callee result or read from an array/object is a finite JSON value) is the induction hypothesis; the induction over the evaluation is a meta-argument", "decimal128 parses or unmarshals JSON number text to a finite value or fails; sign and rounding operations keep finiteness", "acyclicity of results follows from the frame obligations (no write into memory the call did not allocate)"},
+	}
+	return common[p]
 }
 
 func writeReplay(verif, prop string, r *Result) string {
